@@ -7,15 +7,16 @@ git checkout -q -- . ; : > "$LOG"
 git apply --check "$M/patch.diff" >> "$LOG" 2>&1 || { echo "RESULT patch-does-not-apply" | tee -a "$LOG"; exit 1; }
 git apply "$M/patch.diff"
 cmake -G Ninja -S "$WT" -B "$WT/_build" -DCMAKE_BUILD_TYPE=RelWithDebInfo >> "$LOG" 2>&1
-cmake --build "$WT/_build" >> "$LOG" 2>&1 || { echo "RESULT build-fails" | tee -a "$LOG"; git checkout -q -- .; exit 1; }
+rm -f "$WT/_build/mimalloc.o"; cmake --build "$WT/_build" >> "$LOG" 2>&1 || { echo "RESULT build-fails" | tee -a "$LOG"; git checkout -q -- .; exit 1; }
 if ctest --test-dir "$WT/_build" -j8 --timeout 900 >> "$LOG" 2>&1; then SUITE=pass; else SUITE=FAIL; fi
 DEMO=$(ls "$M"/demo.c "$M"/demo.cpp 2>/dev/null | head -1)
 CC=gcc; case "$DEMO" in *.cpp) CC=g++;; esac
+if [ -f "$M/run.sh" ] && [ ! -f "$M/build.sh" ]; then cp "$M/run.sh" "$M/build.sh"; fi
 if [ -f "$M/build.sh" ]; then
   # the sub-agent supplied its own build+run script (it expects to live in <worktree>/seeded/<m>/ and builds from the worktree state)
   ( cd "$M" && timeout 900 sh ./build.sh >> "$LOG" 2>&1 ); RC_MUT=$?
   git checkout -q -- .
-  cmake --build "$WT/_build" >> "$LOG" 2>&1
+  rm -f "$WT/_build/mimalloc.o"; cmake --build "$WT/_build" >> "$LOG" 2>&1
   ( cd "$M" && timeout 900 sh ./build.sh >> "$LOG" 2>&1 ); RC_CLEAN=$?
 else
 $CC -O1 -I"$WT/include" "$DEMO" "$WT/_build/libmimalloc.a" -lpthread -o "$M/demo_mut" >> "$LOG" 2>&1
